@@ -24,6 +24,7 @@ from hypergraph.viz._common import (
     build_param_to_consumer_map,
     is_descendant_of,
     is_node_visible,
+    nearest_visible,
 )
 from hypergraph.viz.renderer._format import format_type
 from hypergraph.viz.renderer.nodes import build_input_groups, has_end_routing
@@ -507,6 +508,9 @@ def _resolve_data_source(
     source_attrs = flat_graph.nodes.get(source, {})
     if source_attrs.get("node_type") == "GRAPH" and expansion_state.get(source, False) and value_name:
         internal = output_to_producer.get(value_name)
+        if internal:
+            # The deepest producer may sit inside a collapsed inner container
+            internal = nearest_visible(internal, flat_graph, expansion_state)
         if internal and internal != source and is_descendant_of(internal, source, flat_graph):
             actual_source = internal
         else:
